@@ -67,10 +67,8 @@ fn main() {
                             }
                             // VecDeque (rotated): iterator body when returned
                             if (si + fi) % 2 == 1 || len == 0 {
-                                let mut dq: VecDeque<f64> = VecDeque::with_capacity(len + 2);
-                                dq.push_back(0.0); dq.pop_front();
-                                for x in xs.iter() { dq.push_back(*x) }
-                                let dy: VecDeque<f64> = ys.iter().cloned().collect();
+                                let dq: VecDeque<f64> = vh::wrapped_deque(&xs);
+                                let dy: VecDeque<f64> = vh::wrapped_deque(&ys);
                                 em.case("custom:mask", &tags("deque"), &desc("deque"), || model_term(f, false, "f", &a),
                                     || cells(guarded(std::panic::AssertUnwindSafe(|| roll_call!(fi, dq, &dy, &a, Vec<f64>)))));
                                 em.case("custom:mask", &tags("deque_to"), &desc("deque_to"), || model_term(f, true, "f", &a),
@@ -83,7 +81,7 @@ fn main() {
                                 let v: ArrayView1<f64> = arr.slice(s![..;-1]);
                                 em.case("custom:mask", &tags("nd_rev"), &desc("nd_rev"), || model_term(f, true, "f", &a),
                                     || cells(guarded(std::panic::AssertUnwindSafe(|| roll_call!(fi, v, &ys, &a, Vec<f64>)))));
-                                let ad: Arc<VecDeque<f64>> = Arc::new(xs.iter().cloned().collect());
+                                let ad: Arc<VecDeque<f64>> = Arc::new(vh::wrapped_deque(&xs));
                                 em.case("custom:mask", &tags("arcdeque"), &desc("arcdeque"), || model_term(f, false, "f", &a),
                                     || cells(guarded(std::panic::AssertUnwindSafe(|| roll_call!(fi, ad, &ys, &a, Vec<f64>)))));
                             }
